@@ -341,6 +341,53 @@ fn random_special(rng: &mut Rng) -> Option<Pos> {
     }
 }
 
+/// The side to move has five to eight queens on a nearly empty board: 130 to 200 moves in one
+/// position (fixed-size move buffers, 8-bit counters). The defender has its king near an edge
+/// and up to three pieces, so that only some of the many checks are mate.
+fn random_wide(rng: &mut Rng) -> Option<Pos> {
+    let mut sq = [0u8; 64];
+    let att = rng.below(2) as u8;
+    let def = att ^ 1;
+    let e = rng.below(8) as usize;
+    let dk = match rng.below(4) {
+        0 => e,
+        1 => 56 + e,
+        2 => e * 8,
+        _ => e * 8 + 7,
+    };
+    sq[dk] = oracle::K | (def << 3);
+    let mut place = |sq: &mut [u8; 64], rng: &mut Rng, pc: u8| {
+        for _ in 0..30 {
+            let s = rng.below(64) as usize;
+            if sq[s] == 0 && !(oracle::kind(pc) == oracle::P && (s < 8 || s >= 56)) {
+                sq[s] = pc;
+                return;
+            }
+        }
+    };
+    place(&mut sq, rng, oracle::K | (att << 3));
+    for _ in 0..(6 + rng.below(4)) {
+        place(&mut sq, rng, oracle::Q | (att << 3));
+    }
+    for _ in 0..rng.below(4) {
+        let k = *rng.pick(&[oracle::R, oracle::N, oracle::B, oracle::P, oracle::Q]);
+        place(&mut sq, rng, k | (def << 3));
+    }
+    let p = Pos {
+        sq,
+        stm: att,
+        castle: 0,
+        ep: -1,
+        half: rng.below(5) as u32,
+        full: 1 + rng.below(60) as u32,
+    };
+    if p.is_sane() && p.legal_moves().len() > 128 {
+        Some(p)
+    } else {
+        None
+    }
+}
+
 fn random_tactical(rng: &mut Rng) -> Option<Pos> {
     if rng.chance(1, 4) {
         return random_special(rng);
@@ -449,6 +496,43 @@ pub fn run_c12(tier: &str, seed: u64, shard: usize, of: usize, only_job: Option<
             }
         }
     }
+    // wide positions: judged on "mate in one" only (their three-ply analysis is too dear), and
+    // only with the depth sequences that stay at 4 plies or less
+    let wide_wanted = if thorough { 40 } else { 2 };
+    let mut wide_done = 0;
+    let mut tries = 0;
+    while wide_done < wide_wanted && tries < 6_000 && only_job.is_none() {
+        tries += 1;
+        let Some(p) = random_wide(&mut rng) else { continue };
+        let m1: Vec<String> = mating_moves(&p).iter().map(Mv::uci).collect();
+        if m1.is_empty() {
+            continue;
+        }
+        // half of them: every mating move comes late in the engine's own move list (a workload
+        // bias, not an oracle: whatever is lost at the end of a long list is decisive there)
+        if wide_done % 2 == 0 {
+            let Ok(b) = eng::load(&p.fen()) else { continue };
+            let list: Vec<String> = b.get_all_moves().iter().map(ToString::to_string).collect();
+            let first = list.iter().position(|m| m1.contains(m)).unwrap_or(0);
+            if first < 100 {
+                continue;
+            }
+            out::count("C12.wide_positions_whose_mates_come_after_100_other_moves", 1);
+        }
+        if started.elapsed().as_secs() > time_cap {
+            break;
+        }
+        wide_done += 1;
+        out::count("C12.positions_with_more_than_128_moves", 1);
+        out::set_max("C12.max_legal_moves_in_a_position", p.legal_moves().len() as u64);
+        let class = Class {
+            m1,
+            m2: vec![],
+            avoid: vec![],
+            allow: vec![],
+        };
+        c12_position(&p, &class, true, false, false, 900_000 + wide_done, shard, 4);
+    }
     let per_shard = candidates / of.max(1);
     let mut generated = 0;
     while generated < per_shard || !todo.is_empty() {
@@ -482,12 +566,13 @@ pub fn run_c12(tier: &str, seed: u64, shard: usize, of: usize, only_job: Option<
                 continue;
             }
         }
-        c12_position(&p, &class, is_m1, is_m2, is_threat, job, shard);
+        c12_position(&p, &class, is_m1, is_m2, is_threat, job, shard, u8::MAX);
     }
     Ok(())
 }
 
-fn c12_position(p: &Pos, class: &Class, is_m1: bool, is_m2: bool, is_threat: bool, job: usize, shard: usize) {
+#[allow(clippy::too_many_arguments)]
+fn c12_position(p: &Pos, class: &Class, is_m1: bool, is_m2: bool, is_threat: bool, job: usize, shard: usize, max_depth: u8) {
     let fen = p.fen();
     let Ok(b) = eng::load(&fen) else {
         out::inconclusive("C12 position rejected by the FEN reader", 1);
@@ -504,6 +589,9 @@ fn c12_position(p: &Pos, class: &Class, is_m1: bool, is_m2: bool, is_threat: boo
         out::count("C12.positions_threat", 1);
     }
     for (si, seq) in SEQUENCES.iter().enumerate() {
+        if seq.iter().any(|d| *d > max_depth) {
+            continue;
+        }
         clear_tt();
         let mut max_sel: u32 = 0;
         for (k, &depth) in seq.iter().enumerate() {
